@@ -31,7 +31,7 @@ ASSUMPTIONS = ['island rows are compared with an independent 8-connected flood f
 MIN_REACH = {'source_finder:SourceFinder.find_sources_in_image': 1, 'source_finder:SourceFinder.priorized_fit_islands': 1,
              'source_finder:SourceFinder._refit_islands': 1, 'source_finder:SourceFinder.result_to_components': 1}
 MIN_COUNTERS = {'island_positions_checked': 10, 'priorized_inputs_off_image_or_on_blank': 3, 'rows_checked': 200, 'island_rows_checked': 10, 'reruns_compared': 10, 'priorized_runs': 3,
-                'fresh_process_reruns': 1, 'table_rows_checked': 20}
+                'fresh_process_reruns': 1, 'table_rows_checked': 20, 'priorized_runs_from_a_table_without_uuid_column': 2, 'blind_runs_with_psf_map': 4, 'multi_component_islands_with_differing_psf': 3}
 BATCHES_PER_JOB = 4
 
 ISLAND_FIELDS = ['island', 'components', 'background', 'local_rms', 'ra_str', 'dec_str', 'ra', 'dec', 'peak_flux', 'int_flux',
@@ -61,6 +61,16 @@ def cases(seed, tier):
         out.append({'kind': 'blind', 'field': spec, 'max_summits': [None, None, 1, 2, 3][int(rng.integers(0, 5))],
                     'island': bool(i % 2), 'docov': bool(rng.random() < 0.7), 'fresh': i % 5 == 1, 'table': i % 3 == 0,
                     'cores': 1})
+    # blind runs with an external psf map that changes from map pixel to map pixel (a few image pixels): the components of one
+    # blended island then have different local psfs; the int_flux / psf column relation is judged row by row
+    n_psf = 8 if tier == 'quick' else 80
+    for i in range(n_psf):
+        shape = (int(rng.integers(110, 170)), int(rng.integers(110, 170)))
+        spec = fields.gen_field(rng, n_sources=int(rng.integers(8, 22)), shape=shape, blends=0.5, tiny=0, nan_blocks=0, edge=0,
+                                snr_range=(30, 300), faint=0.0)
+        out.append({'kind': 'blind', 'field': spec, 'max_summits': None, 'island': bool(i % 2), 'docov': bool(i % 3 == 0),
+                    'fresh': i % 4 == 1, 'table': False, 'cores': 1,
+                    'psfmap': {'n': [int(rng.integers(24, 40)), int(rng.integers(24, 40))], 'seed': int(rng.integers(0, 2 ** 31))}})
     n_prior = 12 if tier == 'quick' else 120
     for i in range(n_prior):
         nsrc = int(rng.integers(22, 70))
@@ -68,7 +78,9 @@ def cases(seed, tier):
         spec = fields.gen_field(rng, n_sources=nsrc, shape=(side, side), blends=0.15, tiny=0, nan_blocks=int(rng.integers(0, 2)),
                                 edge=int(rng.integers(0, 3)), snr_range=(15, 200), faint=0.0)
         out.append({'kind': 'prior', 'field': spec, 'stage': 1 + i % 3, 'regroup': bool((i // 3) % 2),
-                    'docov': bool(rng.random() < 0.5), 'fresh': i % 6 == 0, 'input': 'truth' if i % 2 else 'blind'})
+                    'docov': bool(rng.random() < 0.5), 'fresh': i % 6 == 0, 'input': 'truth' if i % 2 else 'blind',
+                    # the input catalogue as objects, as a table file written by Aegean, or as a foreign table without uuid column
+                    'form': ['objects', 'file_no_uuid', 'objects', 'file'][i % 4], 'ext': ['csv', 'vot', 'fits'][(i // 4) % 3]})
     return out
 
 
@@ -84,9 +96,35 @@ def _blind(fn, case, rms):
     from AegeanTools.source_finder import SourceFinder
     import logging
     sf = SourceFinder(log=logging.getLogger('aegmon-null'))
+    kw = {}
+    if case.get('psfmap'):
+        kw['imgpsf'] = psf_map_file(case, fn)
     srcs = sf.find_sources_in_image(fn, rms=rms, bkg=0.0, cores=1, docov=case['docov'], max_summits=case.get('max_summits'),
-                                    doislandflux=case.get('island', False), nonegative=False, nopositive=False)
+                                    doislandflux=case.get('island', False), nonegative=False, nopositive=False, **kw)
     return srcs
+
+
+def psf_map_file(case, fn):
+    """writes (once) the psf cube belonging to the image file fn: own coarser grid of the image's projection, every map pixel
+    its own beam, all no larger than the header beam (so every injected source is still at least psf sized)"""
+    path = fn[:-5] + '_psfmap.fits'
+    if os.path.exists(path):
+        return path
+    from astropy.io import fits
+    f = case['field']
+    h, z, truth, img = fields.build(f)
+    rows, cols = f['shape']
+    n1, n2 = case['psfmap']['n']
+    rac, decc = [float(v) for v in z.index2sky(rows / 2.0 - 0.5, cols / 2.0 - 0.5)]
+    cd = 1.3 * f['scale'] * max(rows, cols) / min(n1, n2)
+    ph = wz.make_header(f['proj'], (rac, decc), (n1 / 2.0 + 0.5, n2 / 2.0 + 0.5), (-cd, cd), (n2, n1))
+    rng = np.random.default_rng(case['psfmap']['seed'])
+    cube = np.zeros((3, n2, n1))
+    cube[0] = f['beam'][0] * rng.uniform(0.75, 1.0, (n2, n1))
+    cube[1] = np.minimum(cube[0], f['beam'][1] * rng.uniform(0.75, 1.0, (n2, n1)))
+    cube[2] = rng.uniform(-90, 90, (n2, n1))
+    fits.PrimaryHDU(cube, header=ph).writeto(path, overwrite=True)
+    return path
 
 
 def _prior(fn, case, rms, catalogue):
@@ -119,7 +157,8 @@ def truth_catalogue(truth, beam, shape, z):
         s.residual_mean = s.residual_std = 0.0
         s.flags = 0
         s.uuid = str(uuid.UUID(int=(k + 1) * 7919))
-        s.ra_str, s.dec_str = '', ''
+        from AegeanTools.angle_tools import dec2dms, dec2hms
+        s.ra_str, s.dec_str = dec2hms(s.ra), dec2dms(s.dec)
         out.append(s)
     return out
 
@@ -202,8 +241,30 @@ def fresh_entry(case, fn):
         comps, isles = _rows(_blind(fn, case, rms))
     else:
         cat = _input_catalogue(case, fn, rms, truth, z)
-        comps, isles = _rows(_prior(fn, case, rms, cat))
+        comps, isles = _rows(_prior(fn, case, rms, _catalogue_arg(case, cat, fn)))
     return {'comps': comps, 'isles': isles}
+
+
+def _catalogue_arg(case, cat, fn):
+    """the catalogue in the form the case asks for: the objects, a table file written by Aegean, or that file without its uuid
+    column (a catalogue that does not come from Aegean)"""
+    form = case.get('form', 'objects')
+    if form == 'objects':
+        return cat
+    from AegeanTools import catalogs
+    ext = case.get('ext', 'csv')
+    d = os.path.dirname(fn)
+    out = os.path.join(d, 'input_comp.' + ext)
+    if os.path.exists(out):
+        os.remove(out)
+    catalogs.save_catalog(os.path.join(d, 'input.' + ext), cat)
+    if form == 'file_no_uuid':
+        from astropy.table import Table
+        fmt = {'csv': 'ascii.csv', 'vot': 'votable', 'fits': 'fits'}[ext]
+        t = Table.read(out, format=fmt)
+        t.remove_column('uuid')
+        t.write(out, format=fmt, overwrite=True)
+    return out
 
 
 def _input_catalogue(case, fn, rms, truth, z):
@@ -274,6 +335,12 @@ def run(case):
                 comps, isles = _rows(srcs)
                 o.n_eval += 1
                 o.count('own_runs')
+                if case.get('psfmap'):
+                    o.count('blind_runs_with_psf_map')
+                    byi = {}
+                    for r_ in comps:
+                        byi.setdefault(r_['island'], set()).add((round(r_['psf_a'], 6), round(r_['psf_b'], 6)))
+                    o.count('multi_component_islands_with_differing_psf', sum(1 for v in byi.values() if len(v) > 1))
                 srcs2 = _guard(o, ctx, lambda: _blind(fn, case, rms))
                 o.n_eval += 1
                 o.count('own_runs')
@@ -284,9 +351,18 @@ def run(case):
                 o.count('priorized_input_sources', len(cat))
                 import copy
                 cat_first = copy.deepcopy(cat)          # identical input for both runs
-                before = [catalog_inv.as_row(s) for s in cat_first]
+                before = [catalog_inv.as_row(s) for s in cat]
+                form = case.get('form', 'objects')
+                o.see('priorized_catalogue_form', form + ('' if form == 'objects' else '/' + case.get('ext', 'csv')))
+                if form != 'objects':
+                    cat_first = _guard(o, ctx, lambda: _catalogue_arg(case, cat, fn))
+                    if cat_first is None:
+                        return _own(o)
+                    o.count('priorized_runs_from_a_table_file')
+                    if form == 'file_no_uuid':
+                        o.count('priorized_runs_from_a_table_without_uuid_column')
                 srcs = _guard(o, ctx, lambda: _prior(fn, case, rms, cat_first))
-                after = [catalog_inv.as_row(s) for s in cat_first]
+                after = [catalog_inv.as_row(s) for s in cat_first] if form == 'objects' else before
                 if before != after and not all(_same(list(a.values()), list(b.values())) for a, b in zip(before, after)):
                     o.count('priorized_runs_that_modified_their_input_objects')      # observed, judged by C19/C05
                 if srcs is None:
@@ -298,7 +374,7 @@ def run(case):
                 o.see('priorized_stage_regroup', '%d/%s' % (case['stage'], case['regroup']))
                 if len(cat) > 20:
                     o.count('priorized_runs_over_20_inputs')
-                srcs2 = _guard(o, ctx, lambda: _prior(fn, case, rms, copy.deepcopy(cat)))
+                srcs2 = _guard(o, ctx, lambda: _prior(fn, case, rms, copy.deepcopy(cat) if form == 'objects' else cat_first))
                 o.n_eval += 1
                 o.count('own_runs')
                 skipped = 0
@@ -310,7 +386,7 @@ def run(case):
                 # every output carries an input uuid (C05 judges the rest)
                 inu = set(s.uuid for s in cat)
                 for r in comps:
-                    if r['uuid'] not in inu:
+                    if form != 'file_no_uuid' and r['uuid'] not in inu:
                         o.violate('priorized_uuid_not_an_input', dict(ctx, row=r))
         finally:
             _disarm()
